@@ -15,6 +15,7 @@ myth_freelist_t **g_myth_freelist;
 
 #ifdef MYTH_VERIF
 void (*g_myth_verif_hook)(int pt, const void * a, const void * b, long v) = 0;
+int (*g_myth_verif_clock)(struct timespec * ts) = 0;
 #endif
 
 //Global variabled declaration
